@@ -6,6 +6,8 @@ import (
 	"bytes"
 	"context"
 	"fmt"
+	"go/types"
+	"math/big"
 	"os"
 	"os/exec"
 	"path/filepath"
@@ -38,6 +40,26 @@ func (o *Oblig) qfScript() string {
 		}
 	}
 	s := buildScript(vc, body, mkAnd(o.Reach, mkNot(o.Goal)), true)
+	var out []string
+	for _, l := range strings.Split(s, "\n") {
+		if strings.HasPrefix(l, "(assert (forall") {
+			continue
+		}
+		out = append(out, l)
+	}
+	return strings.Join(out, "\n")
+}
+
+// coverQF: satisfiability of the quantifier-free part of the assumptions (fast vacuity check).
+func (o *Oblig) coverQF() string {
+	vc := o.vc
+	var body []*Term
+	for _, a := range vc.assumes[:o.NAssume] {
+		if !hasQuant(a) {
+			body = append(body, a)
+		}
+	}
+	s := buildScript(vc, body, tTrue, false)
 	var out []string
 	for _, l := range strings.Split(s, "\n") {
 		if strings.HasPrefix(l, "(assert (forall") {
@@ -89,7 +111,7 @@ func buildScript(vc *VC, assumes []*Term, final *Term, wantModel bool) string {
 	if len(lits) > 0 {
 		needStrlen = true
 	}
-	for _, u := range []string{"str.upper", "str.lower", "str.cat"} {
+	for _, u := range []string{"str.upper", "str.lower", "str.cat", "strbytes"} {
 		if _, ok := ufs[u]; ok {
 			needStrlen = true
 		}
@@ -144,6 +166,13 @@ func buildScript(vc *VC, assumes []*Term, final *Term, wantModel bool) string {
 		sb.WriteString("(assert (forall ((a Str) (b Str) (c Str)) (! (=> (= (str.cat a b) (str.cat a c)) (= b c)) :pattern ((str.cat a b) (str.cat a c)))))\n")
 		sb.WriteString("(assert (forall ((a Str) (b Str)) (! (= (strlen (str.cat a b)) (+ (strlen a) (strlen b))) :pattern ((str.cat a b)))))\n")
 	}
+	if _, ok := ufs["bstr"]; ok {
+		// string(bytes) depends only on the bytes it covers
+		sb.WriteString("(assert (forall ((a (Array Int Int)) (o Int) (n Int) (b (Array Int Int)) (p Int)) (! (=> (forall ((j Int)) (=> (and (<= 0 j) (< j n)) (= (select a (+ o j)) (select b (+ p j))))) (= (bstr a o n) (bstr b p n))) :pattern ((bstr a o n) (bstr b p n)))))\n")
+		if _, ok := ufs["strbytes"]; ok {
+			sb.WriteString("(assert (forall ((s Str)) (! (= (bstr (strbytes s) 0 (strlen s)) s) :pattern ((strbytes s)))))\n")
+		}
+	}
 	// error sentinels and type tags
 	var sents, tags []string
 	for _, k := range sortedKeys(vars) {
@@ -178,6 +207,35 @@ func buildScript(vc *VC, assumes []*Term, final *Term, wantModel bool) string {
 		}
 		sb.WriteString("))\n")
 	}
+	// element ranges of integer-typed arrays (every version of an E$<inttype> family and every derived inner array)
+	for _, k := range sortedKeys(vars) {
+		srt := vars[k]
+		var tn string
+		outer := false
+		switch {
+		case strings.HasPrefix(k, "H$E$") && srt.Eq(SArr(SRef, SArr(SInt, SInt))):
+			tn = strings.SplitN(k[4:], "!", 2)[0]
+			outer = true
+		case strings.HasPrefix(k, "inner$") && srt.Eq(SArr(SInt, SInt)):
+			tn = strings.SplitN(k[6:], "!", 2)[0]
+		default:
+			continue
+		}
+		lo, hi, ok := intRangeByName(tn)
+		if !ok {
+			continue
+		}
+		if outer {
+			fmt.Fprintf(&sb, "(assert (forall ((r Ref) (i Int)) (! (and (<= %s (select (select %s r) i)) (<= (select (select %s r) i) %s)) :pattern ((select (select %s r) i)))))\n",
+				mkBig(lo), smtName(k), smtName(k), mkBig(hi), smtName(k))
+		} else {
+			fmt.Fprintf(&sb, "(assert (forall ((i Int)) (! (and (<= %s (select %s i)) (<= (select %s i) %s)) :pattern ((select %s i)))))\n",
+				mkBig(lo), smtName(k), smtName(k), mkBig(hi), smtName(k))
+		}
+	}
+	if _, ok := ufs["strbytes"]; ok {
+		sb.WriteString("(assert (forall ((s Str) (i Int)) (! (and (<= 0 (select (strbytes s) i)) (<= (select (strbytes s) i) 255)) :pattern ((select (strbytes s) i)))))\n")
+	}
 	// byte packing
 	for _, w := range []int{2, 4, 8} {
 		pk := fmt.Sprintf("pack%d", w)
@@ -208,6 +266,13 @@ func buildScript(vc *VC, assumes []*Term, final *Term, wantModel bool) string {
 			fmt.Fprintf(&sb, "(assert (forall ((v Int)) (! (and (<= 0 (%s v)) (<= (%s v) 255)) :pattern ((%s v)))))\n", bn, bn, bn)
 		}
 		fmt.Fprintf(&sb, "(assert (forall ((v Int)) (! (=> (and (<= 0 v) (< v %s)) (= (%s %s) v)) :pattern (%s))))\n", pow2(w*8).String(), pk, strings.Join(bs, " "), bs[0])
+		var bvs, bns []string
+		for k := 0; k < w; k++ {
+			bvs = append(bvs, fmt.Sprintf("(b%d Int)", k))
+			bns = append(bns, fmt.Sprintf("b%d", k))
+		}
+		app := fmt.Sprintf("(%s %s)", pk, strings.Join(bns, " "))
+		fmt.Fprintf(&sb, "(assert (forall (%s) (! (and (<= 0 %s) (< %s %s)) :pattern (%s))))\n", strings.Join(bvs, " "), app, app, pow2(w*8).String(), app)
 	}
 	for _, a := range assumes {
 		sb.WriteString("(assert ")
@@ -221,6 +286,15 @@ func buildScript(vc *VC, assumes []*Term, final *Term, wantModel bool) string {
 		sb.WriteString("(get-model)\n")
 	}
 	return sb.String()
+}
+
+func intRangeByName(n string) (*big.Int, *big.Int, bool) {
+	for _, b := range types.Typ {
+		if b.Name() == n && b.Info()&types.IsInteger != 0 && b.Info()&types.IsUntyped == 0 {
+			return intRange(b)
+		}
+	}
+	return nil, nil, false
 }
 
 // caseFacts: f(lit) = lit' for every pair of literals of the query with conv(lit) == lit'.
@@ -321,6 +395,9 @@ func solveAll(obs []*Oblig, opt solveOpts) {
 	for i, o := range obs {
 		scripts[i] = o.script(false)
 		o.scriptText = scripts[i]
+		if o.Kind == "cover" {
+			o.qfText = o.coverQF()
+		}
 	}
 	for i := range obs {
 		ch <- i
@@ -376,6 +453,28 @@ func solveOne(o *Oblig, id int, opt solveOpts) {
 	}
 	if o.Kind != "cover" && isFalse(o.Reach) {
 		o.Verdict, o.Solver, o.TimeS = "unsat", "trivial", 0
+		return
+	}
+	if o.Kind == "cover" {
+		// vacuity: the full assumption set must not be refutable quickly, and its quantifier-free part must be satisfiable
+		r := runSolver("z3-new", script, 2*time.Second, opt.scratch, id, opt.seed)
+		o.Attempts = append(o.Attempts, fmt.Sprintf("full:%s:%s:%.2fs", r.solver, r.verdict, r.secs))
+		o.Solver, o.TimeS, o.Output = r.solver, r.secs, r.out
+		if r.verdict == "unsat" {
+			o.Verdict = "vacuous"
+			return
+		}
+		if r.verdict != "sat" {
+			q := runSolver("z3-new", o.qfText, opt.timeout, opt.scratch, id+300000, opt.seed)
+			o.Attempts = append(o.Attempts, fmt.Sprintf("qf-part:%s:%s:%.2fs", q.solver, q.verdict, q.secs))
+			o.TimeS += q.secs
+			if q.verdict == "unsat" {
+				o.Verdict = "vacuous"
+				return
+			}
+			o.Solver += "(cover:full " + r.verdict + ", qf-part " + q.verdict + ")"
+		}
+		o.Verdict = "unsat"
 		return
 	}
 	r := runSolver("z3-new", script, opt.timeout, opt.scratch, id, opt.seed)
